@@ -196,6 +196,9 @@ class FileWeave:
             if a.startswith('#[cfg_attr(feature = "serde"') or a.startswith('#[doc('):
                 self.drop(q, q + len(a), 'attr ' + a.split('(')[0])
             p = q + len(a)
+        if it.kind == 'struct' and it.name in getattr(self, 'layout_texts', {}):
+            gd = Directive('generated', 'layout ' + it.name, 'vlib/layout.py', 0)
+            self.ins(it.end, '\n' + self.layout_texts[it.name], gd)
         if it.kind in ('struct', 'enum'):
             for d in self.find_dirs('after-item', it.name):
                 self.ins(it.end, '\n' + d.payload, d)
@@ -461,6 +464,7 @@ def weave(repo='/repo', contracts='/verif/contracts', extra_modules=()):
         vs = os.path.join(contracts, modname + '.vspec')
         dirs = parse_vspec(vs) if os.path.exists(vs) else []
         fw = FileWeave(rel, src, dirs, log)
+        fw.layout_texts = lay_texts if rel.startswith('indicators') else {}
         try:
             fw.plan()
         except ScanError as e:
@@ -479,6 +483,38 @@ def weave(repo='/repo', contracts='/verif/contracts', extra_modules=()):
         w.dropped[rel] = fw.dropped
         w.rewrites[rel] = fw.rewrites
         return fw, text, segs, inslog
+
+    # C18: serialized-size specs generated from the struct definitions of the current tree
+    import layout as LAY
+    structs, aliases, struct_mod = {}, {}, {}
+    inddir = os.path.join(srcdir, 'indicators')
+    for fn_ in sorted(os.listdir(inddir)):
+        if not fn_.endswith('.rs') or fn_ == 'mod.rs':
+            continue
+        txt_ = open(os.path.join(inddir, fn_)).read()
+        m_ = mask(txt_)
+        for am in re.finditer(r'use\s+crate::indicators::(\w+)\s+as\s+(\w+)\s*;', m_):
+            aliases[am.group(2)] = am.group(1)
+        try:
+            for it_ in split_items(txt_, m_, 0, len(txt_)):
+                if it_.kind == 'struct' and it_.body_lo >= 0 and not it_.name.endswith('Output') and 'cfg(test)' not in ' '.join(it_.attrs):
+                    structs[it_.name] = LAY.parse_struct_fields(m_[it_.body_lo:it_.body_hi])
+                    struct_mod[it_.name] = fn_[:-3]
+        except (ScanError, LAY.LayoutError) as e:
+            raise WeaveError('%s: %s' % (fn_, e))
+    lay_texts, w.layout_info, w.layout_problems = LAY.gen(structs, aliases)
+    for name_, t_ in lay_texts.items():
+        vs_ = os.path.join(contracts, struct_mod[name_] + '.vspec')
+        has_shape = os.path.exists(vs_) and re.search(r'spec fn shape_ok\b', open(vs_).read()) is not None
+        t_ += '    pub proof fn lemma_buf_total(&self)\n'
+        if has_shape:
+            t_ += '        requires self.shape_ok(),\n'
+        t_ += '        ensures self.buf_total() == self.per_sum() //#C18\n    {\n'
+        for c_ in w.layout_info[name_]['nested']:
+            t_ += '        self.%s.lemma_buf_total();\n' % c_
+        t_ += '    }\n}\n'
+        lay_texts[name_] = t_
+    w.layout_texts = lay_texts
 
     # recursive inlining of `mod x;`
     def inline(rel, modname, out, depth):
